@@ -201,12 +201,17 @@ func (c *localCache) GetKeys(ctx context.Context, name string, store cachepb.Sto
 				if e == nil {
 					continue //
 				}
-				outCh <- &Update{
+				// do not block forever if the consumer stopped reading
+				select {
+				case <-ctx.Done():
+					return
+				case outCh <- &Update{
 					path:     e.P,
 					value:    nil,
 					priority: e.Priority,
 					owner:    e.Owner,
 					ts:       int64(e.Timestamp),
+				}:
 				}
 			}
 		}
@@ -244,12 +249,17 @@ func (c *localCache) ReadCh(ctx context.Context, name string, opts *Opts, paths 
 				if e == nil {
 					continue //
 				}
-				outCh <- &Update{
+				// do not block forever if the consumer stopped reading
+				select {
+				case <-ctx.Done():
+					return
+				case outCh <- &Update{
 					path:     e.P,
 					value:    e.V,
 					priority: e.Priority,
 					owner:    e.Owner,
 					ts:       int64(e.Timestamp),
+				}:
 				}
 			}
 		}
